@@ -1941,6 +1941,71 @@ def _variant_family(case, what):
     return "op4-ascii-read-variant-%s-%s%s-%s" % (lays, "D" if case["useD"] else "E", "-single" if case["single"] else "", what)
 
 
+def _oracle_mixed_formats(ctx, op4, sc, rng):
+    """one ASCII file whose matrices announce DIFFERENT number formats, some of them none at all (the reader's default
+    5E16.9): a full read, the listing, and every single-name / two-name named read (= the full read filtered) - what
+    the reader remembers of one matrix's format must not reach the next one, also when the first one is only skipped"""
+    cases = []
+    for k in range(rng.randint(2, 5)):
+        c = _gen_vcase(rng)
+        c["mats"] = c["mats"][:1]
+        c["mats"][0]["name"] = "M%d%s" % (k, c["mats"][0]["name"][:3])
+        if rng.random() < 0.45:
+            c["width"], c["perline"], c["announce"] = 16, 5, False
+            pass
+            c["mats"] = [_gen_vmat(rng, c["single"], 8)]
+            c["mats"][0]["name"] = "M%dU" % k
+        cases.append(c)
+    use_d = rng.random() < 0.4  # (the reader decides E or D once per file, from the first data line)
+    for c in cases:
+        c["useD"] = use_d
+    cases = [_vcase_norm(c) if c.get("announce") is not False else dict(_vcase_norm(c), announce=False) for c in cases]
+    text = ""
+    for c in cases:
+        t = _py_encode_variant(c)
+        if c.get("announce") is False:
+            first, rest = t.split("\n", 1)
+            t = first[:40].rstrip() + "\n" + rest
+        text += t
+    want = [e for c in cases for e in _vcase_expected(c)]
+    p = sc.path()
+    open(p, "w").write(text)
+    ctx.count("oracle:ascii-mixed-formats")
+    inp = {"kind": "mixed-formats", "text": text, "formats": [("none" if c.get("announce") is False else "%dE%d" % (c["perline"], c["width"]))
+                                                             for c in cases]}
+
+    def load(**kw):
+        with warnings.catch_warnings():
+            warnings.simplefilter("ignore")
+            n, X, f_, t_ = op4.load(p, into="list", **kw)
+        return [(a, np.asarray(x)) for a, x in zip(n, X)]
+
+    try:
+        full = load()
+        ok = [a for a, _ in full] == [w[0] for w in want] and all(
+            x.shape == w[5].shape and (not np.all(np.isfinite(w[5].view(np.float64) if np.iscomplexobj(w[5]) else w[5]))
+                                       or _same_bits(x, w[5])) for (_, x), w in zip(full, want))
+        if not ok:
+            ctx.fail("op4-ascii-mixed-formats-full-read", "a file whose matrices announce different formats (or none) is not "
+                     "read back", inp, [a for a, _ in full], [w[0] for w in want])
+            return
+        names = [w[0] for w in want]
+        picks = [[n_] for n_ in names] + [[names[-1], names[0]]]
+        for pk in picks:
+            sub = load(namelist=pk)
+            ref = [(a, x) for a, x in full if a in pk]
+            if [a for a, _ in sub] != [a for a, _ in ref] or any(x.shape != y.shape or not _same_bits(x, y)
+                                                                  for (_, x), (_, y) in zip(sub, ref)):
+                ctx.fail("op4-ascii-mixed-formats-named-read", "a named read of a file with mixed number formats is not the "
+                         "full read filtered (namelist %r)" % (pk,), inp, [a for a, _ in sub], [a for a, _ in ref])
+                return
+    except Exception as e:  # noqa: BLE001
+        ctx.fail("op4-ascii-mixed-formats-raises", "reading a valid file with mixed number formats raises", inp,
+                 "%s: %s" % (type(e).__name__, str(e)[:160]), "the matrices")
+    finally:
+        os.path.exists(p) and os.remove(p)
+
+
 def _oracle_variant(ctx, op4, sc, case):
     r = _check_variant(op4, sc, case)
     ctx.count("oracle:ascii-variant")
@@ -2301,6 +2366,8 @@ def search(ctx, hints):
         # huge sparse inputs: index arithmetic beyond 2**32 positions
         for hc in _huge_sparse_cases(rng, ctx.pick(8, 60)):
             _oracle_huge_sparse(ctx, op4, sc, hc)
+        for _ in range(ctx.pick(60, 500)):
+            _oracle_mixed_formats(ctx, op4, sc, rng)
         # ASCII variant files (reader only)
         for _ in range(ctx.pick(300, 2500)):
             _oracle_variant(ctx, op4, sc, _gen_vcase(rng))
